@@ -17,7 +17,7 @@ pub fn meta() -> Meta {
     Meta {
         id: "C07",
         level: "model_checking",
-        rule: "explicit-state search over pools of .skf files: level 0 = every ordered list of distinct samples (all subsets, all orders) built with the real build; each further level merges every ordered selection of 2..4 known files with disjoint sample sets through the real generic_modes::merge (the function `ska merge` calls); a file's state is its full content incl. hidden fields and states are de-duplicated, so the search closes when merged files are indistinguishable from built ones and keeps expanding otherwise (nested merges). Invariant in every state: table and name order equal the model's joint table and the real joint build of the same samples in that order. k in {7,31,33,63} x strand modes; n<=5 quick; thorough adds n=5 at both widths and n=6 with pairwise merges (chains and trees arise over the levels). Refusals (different k incl. 31 vs 33, different strand mode, both orders, the incompatible file in second or third position) through the CLI: non-zero exit and no output file. Selected merge trees are re-executed through `ska merge`.".into(),
+        rule: "explicit-state search over pools of .skf files: level 0 = every ordered list of distinct samples (all subsets, all orders) built with the real build; each further level merges every ordered selection of 2..4 known files with disjoint sample sets through the real generic_modes::merge (the function `ska merge` calls); a file's state is its full content incl. hidden fields and states are de-duplicated, so the search closes when merged files are indistinguishable from built ones and keeps expanding otherwise (nested merges). Invariant in every state: table and name order equal the model's joint table and the real joint build of the same samples in that order. k in {7,31,33,63} x strand modes; n<=5 quick; thorough adds n=5 at both widths and n=6 with pairwise merges (chains and trees arise over the levels). Refusals (different k incl. 31 vs 33, different strand mode, both orders, the incompatible file in second or third position) through the CLI: non-zero exit and no output file. Selected merge trees are re-executed through `ska merge`, files whose samples share a name (same base name in different directories, the same file twice) are merged through the CLI and compared with the joint build, and `ska align` of the merged file is compared with `ska align` of the jointly built file.".into(),
         assumptions: vec!["sorted-row canonical form: merge treats rows independently".into()],
         exhaustive_when_uncapped: true, // the declared bounded space (all selections / the whole lattice / all histories up to the depth bound / all interleavings and configurations) is enumerated completely unless capped
     }
@@ -192,6 +192,29 @@ fn explore_cfg(c: &Cfg, ctx: &Ctx, rep: &mut Report, idx: &mut u64, max_level: u
             rep.violate(format!("{label} cli merge"), "ska merge of [s0] and [s2,s1] differs from the joint table".into(), json!({"label": label, "cli": "merge s0 + [s2,s1]"}));
         } else {
             rep.traces_validated += 1;
+            // "equals building them together" also for what is computed from the file next: the complete-column
+            // alignment of the merged file and of the jointly built file are the same text
+            if let Some(jb) = built.get(&vec![0usize, 2, 1]) {
+                let joint = known[jb].2.clone();
+                for flags in [vec!["--min-freq", "1", "--filter", "no-filter"], vec!["--min-freq", "0.5", "--filter", "no-const"]] {
+                    let mut a1 = vec!["align", "ab.skf"];
+                    a1.extend(flags.iter());
+                    let mut a2 = vec!["align", joint.as_str()];
+                    a2.extend(flags.iter());
+                    let (o1, o2) = (cli::run(&a1, &dir, None), cli::run(&a2, &dir, None));
+                    rep.evaluations += 1;
+                    rep.corner("align_of_merged_vs_jointly_built");
+                    let cols = |o: &cli::CliOut| -> Vec<Vec<u8>> {
+                        let (_, seqs) = crate::real::parse_fasta(&o.stdout);
+                        let mut c = crate::real::columns_of(&seqs).unwrap_or_default();
+                        c.sort();
+                        c
+                    };
+                    if o1.code != o2.code || cols(&o1) != cols(&o2) {
+                        rep.violate(format!("{label} cli merge then align {flags:?}"), format!("ska align {flags:?} gives {} columns on the merged file and {} on the jointly built file", cols(&o1).len(), cols(&o2).len()), json!({"label": label, "cli": "merge s0 + [s2,s1] then align"}));
+                    }
+                }
+            }
         }
         if c.n >= 4 {
             let d = &known[&built[&vec![3usize]]].2;
@@ -279,6 +302,53 @@ fn refusals(ctx: &Ctx, rep: &mut Report, idx: &mut u64) {
     refusals_third(ctx, rep, idx, &files, &dir);
 }
 
+/// files whose samples carry the same name (the name is the file's base name, so `asm_1/contigs.fa` and
+/// `asm_2/contigs.fa` are both "contigs"): merging equals building them together, nothing is dropped
+fn equal_names(ctx: &Ctx, rep: &mut Report, idx: &mut u64) {
+    for k in [7usize, 33] {
+        *idx += 1;
+        if !ctx.mine(*idx) {
+            continue;
+        }
+        let pool = samples::pool(k, ctx.seed);
+        let dir = scratch::path(&format!("c07names{k}"));
+        let _ = std::fs::create_dir_all(format!("{dir}/d1"));
+        let _ = std::fs::create_dir_all(format!("{dir}/d2"));
+        std::fs::write(format!("{dir}/d1/contigs.fa"), scratch::fasta(&pool[1])).unwrap();
+        std::fs::write(format!("{dir}/d2/contigs.fa"), scratch::fasta(&pool[2])).unwrap();
+        std::fs::write(format!("{dir}/other.fa"), scratch::fasta(&pool[3])).unwrap();
+        let ks = k.to_string();
+        let b: Vec<i32> = [("a", "d1/contigs.fa"), ("b", "d2/contigs.fa"), ("c", "other.fa")].iter().map(|(o, f)| cli::run(&["build", "-k", &ks, "-o", o, f], &dir, None).code).collect();
+        let j = cli::run(&["build", "-k", &ks, "-o", "joint", "d1/contigs.fa", "other.fa", "d2/contigs.fa"], &dir, None);
+        if b.iter().any(|c| *c != 0) || j.code != 0 {
+            rep.machinery(format!("C07 equal names: build failed {b:?} {}", j.code));
+            continue;
+        }
+        let names: Vec<String> = vec!["contigs".into(), "other".into(), "contigs".into()];
+        let want = Table::from_samples(k, true, &names, &[pool[1].clone(), pool[3].clone(), pool[2].clone()]);
+        let cases: Vec<(&str, Vec<&str>, Table)> = vec![
+            ("three files, first and last share the sample name", vec!["merge", "a.skf", "c.skf", "b.skf", "-o", "acb"], want.clone()),
+            ("the same file twice", vec!["merge", "a.skf", "a.skf", "-o", "acb"], Table::from_samples(k, true, &["contigs".to_string(), "contigs".to_string()], &[pool[1].clone(), pool[1].clone()])),
+            ("two files with the same sample name", vec!["merge", "b.skf", "a.skf", "-o", "acb"], Table::from_samples(k, true, &["contigs".to_string(), "contigs".to_string()], &[pool[2].clone(), pool[1].clone()])),
+        ];
+        for (what, args, want) in cases {
+            rep.evaluations += 1;
+            rep.nontrivial += 1;
+            rep.corner("cli_merge_equal_sample_names");
+            let _ = std::fs::remove_file(format!("{dir}/acb.skf"));
+            let o = cli::run(&args, &dir, None);
+            let got = FileState::read(&format!("{dir}/acb.skf"));
+            if o.code != 0 || got.as_ref().map(|g| &g.table) != Ok(&want) {
+                rep.violate(format!("equal names k={k}: {what}"), format!("{what}: ska merge (exit {}) gives names {:?} / {:?} rows; building them together gives {:?} / {} rows", o.code, got.as_ref().map(|g| g.table.names.clone()), got.as_ref().map(|g| g.table.rows.len()), want.names, want.rows.len()), json!({"cli": what, "k": k}));
+            }
+        }
+        let joint = FileState::read(&format!("{dir}/joint.skf"));
+        if joint.as_ref().map(|g| &g.table) != Ok(&want) {
+            rep.violate(format!("equal names k={k}: joint build"), "building files with equal base names together differs from the model".into(), json!({"cli": "joint build equal names", "k": k}));
+        }
+    }
+}
+
 pub fn replay(_case: &Value) -> Result<Option<String>, String> {
     Err("C07 cases are derivations inside a search; rerun ./check C07".into())
 }
@@ -306,4 +376,6 @@ pub fn run(ctx: &Ctx, rep: &mut Report) {
     }
     refusals(ctx, rep, &mut idx);
     rep.completed.push("refusals".into());
+    equal_names(ctx, rep, &mut idx);
+    rep.completed.push("equal sample names".into());
 }
